@@ -465,7 +465,15 @@ def pearsonr(X, Y, Z, data, boolean=True, **kwargs):
 
     # Step 3: If Z is non-empty, use linear regression to compute residuals and test independence on it.
     else:
-        Z_mat = np.column_stack((np.ones(data.shape[0]), data.loc[:, Z].values))
+        # Centre every conditioning column and scale it to unit norm before the regression.
+        # The column space of [1, Z] (hence the residuals) is unchanged, but the least squares
+        # problem stays well conditioned for variables with a large offset or in very small or
+        # large units; otherwise lstsq's rank cut-off silently drops such a column.
+        Z_values = data.loc[:, Z].values.astype(float)
+        Z_values = Z_values - Z_values.mean(axis=0)
+        Z_norms = np.linalg.norm(Z_values, axis=0)
+        Z_norms[Z_norms == 0] = 1.0
+        Z_mat = np.column_stack((np.ones(data.shape[0]), Z_values / Z_norms))
         X_coef = np.linalg.lstsq(Z_mat, data.loc[:, X].values, rcond=None)[0]
         Y_coef = np.linalg.lstsq(Z_mat, data.loc[:, Y].values, rcond=None)[0]
 
